@@ -105,7 +105,7 @@ def coreRunExec {α β φ : Type} (submit : α → φ) (getResult : φ → β) (
       resultsLinear) resultsLinear)
   .ok (resultsLinear)
 
-def coreRun {α β : Type} (leR : β → β → Bool) (σ : List Nat) (shuffle execGiven poolAsked : Bool) (runSeq runExec : List α → List β) (settings : List α) : Except PyErr (List α × List β) :=
+def coreRun {α β : Type} (leR : β → β → Bool) (σ : List Nat) (shuffle flat execGiven poolAsked : Bool) (runSeq runExec : List α → List β) (settings : List α) : Except PyErr (List α × List β) :=
   if shuffle then
     let enumSettings : List (Nat × α) := (Py.enumerate settings)
     let enumSettings : List (Nat × α) := (Py.permute σ enumSettings)
